@@ -612,6 +612,10 @@ pub fn run(plan: &Plan, pp: &PipePlan) -> FamOut {
             if fd0 != Some(w) {
                 violate("wiring", "wiring/pipeline_stdin".into(), "the first stage's stdin is not the configured pipeline input".into());
             }
+        } else if matches!(pp.stdin, PStdin::Data | PStdin::Pipe | PStdin::Null) && fd0.is_some() && fd0 == boot[0] {
+            // input was configured (data of whatever length, a pipe, the null device): the first
+            // command must not be left reading the parent's own stdin
+            violate("wiring", "wiring/pipeline_stdin/left_on_the_parents_stdin".into(), format!("pipeline input is {:?} ({} bytes), but the first stage reads the parent's own standard input", pp.stdin, pp.input_len));
         }
         if i == n - 1 {
             if let Some(w) = want_out {
